@@ -2,7 +2,7 @@
 C04 — the model satisfies the size clause of the oracle (`szCmd_satisfies_spec`).
 
 The line judge flags `sz ok n` when n exceeds `limitOf lim <constructor>`.  Here: for every constructor command the
-harness understands, every argument list (int64 values, as the harness reads them with strtoll) and every set of
+harness understands, every argument list and every set of
 limits (C ints; MaxStringLength at least 4 so that the literal operands of the LPC side - "x", "a,", "({})" - are
 themselves legal strings), the size the model reports is within that limit.  The statement is over the structured
 command (`Ctor`), the name lookup is `Ctor.ofName`.
@@ -73,13 +73,8 @@ theorem valNested_nest (k : Nat) : (valNested k).nest = k + 1 := by
   | zero => simp [valNested, Val.nest]
   | succ k ih => simp [valNested, Val.nest, ih]
 
-theorem toSizeT_small {x : Int} (h0 : 0 ≤ x) (h1 : x < 9223372036854775808) : toSizeT x = x.toNat := by
-  unfold toSizeT two64
-  rw [Int.emod_eq_of_lt h0 (by rw [two64_cast]; omega)]
-
 /-- **szCmd_satisfies_spec** (structured form) -/
 theorem szCmdC_satisfies_spec (l : Limits) (hl : LimsOk l) (c : Ctor) (args : List Int) (r : SzR)
-    (hargs : ∀ a ∈ args, -9223372036854775808 ≤ a ∧ a < 9223372036854775808)
     (h : szCmdC l c args = some r) : Bnd (limitOfC l c) r := by
   have hA := hl.arr
   have hB := hl.buf
@@ -202,35 +197,17 @@ theorem szCmdC_satisfies_spec (l : Limits) (hl : LimsOk l) (c : Ctor) (args : Li
       omega
     · exact Bnd_err _
   case restore_nested =>
-    unfold ar1 at h
-    split at h
-    · rename_i d
-      injection h with h
-      subst h
-      have hd := hargs d (by simp)
-      refine Bnd_andThen fun a ha => Bnd_andThen fun b hb => Bnd_andThen fun _ _ => Bnd_andThen fun _ _ => ?_
+    refine ar1_bnd (fun d => Bnd_andThen fun _ _ => Bnd_andThen fun _ _ => Bnd_andThen fun _ _ => Bnd_andThen fun _ _ => ?_) h
+    split
+    · rename_i hok
       intro n hn
       injection hn with hn
       subst hn
-      -- the text of d - 1 opening brackets fits into MaxStringLength, so d does
-      have h4 := hl.str4
-      have hlS := toSizeT_of_limit hS
-      unfold repeatString at ha
-      split at ha
-      · omega
-      · split at ha
-        · omega
-        · split at ha
-          · omega
-          · simp only at ha
-            split at ha
-            · cases ha
-            · rename_i hgt
-              rw [hlS, toSizeT_small (by omega) (by omega)] at hgt
-              have : (d - 1).toNat ≤ l.maxString.toNat / 2 := Nat.le_of_not_lt hgt
-              have : l.maxString.toNat / 2 ≤ l.maxString.toNat := Nat.div_le_self _ _
-              omega
-    · cases h
+      have h1 := (saveSize_isSome (valNested (d.toNat - 1)) 0).mp (by rw [← restoreWalk_eq]; exact hok)
+      rw [valNested_nest] at h1
+      have h25 : maxSaveDepth = 25 := rfl
+      omega
+    · exact Bnd_err _
   case restore_array =>
     exact ar1_bnd (fun _ => Bnd_andThen fun _ _ => Bnd_andThen fun _ _ => Bnd_andThen fun _ _ => fun _ hn =>
       allocateArray_bounded hA hn) h
@@ -253,7 +230,6 @@ theorem szCmdC_satisfies_spec (l : Limits) (hl : LimsOk l) (c : Ctor) (args : Li
 /-- **szCmd_satisfies_spec**: by name, as the driver and the line judge use it - whatever `sz` command the model
     answers with `sz ok n`, the oracle's size clause (`n > limitOf lim ctor`) does not fire -/
 theorem szCmd_satisfies_spec (l : Limits) (hl : LimsOk l) (ctor : String) (args : List Int) (n : Nat)
-    (hargs : ∀ a ∈ args, -9223372036854775808 ≤ a ∧ a < 9223372036854775808)
     (h : szCmd l ctor args = some (.ok n)) : ¬ ((n : Int) > limitOf l ctor) := by
   unfold szCmd at h
   unfold limitOf
@@ -261,7 +237,7 @@ theorem szCmd_satisfies_spec (l : Limits) (hl : LimsOk l) (ctor : String) (args 
   | none => rw [hc] at h; cases h
   | some c =>
     rw [hc] at h
-    have := szCmdC_satisfies_spec l hl c args _ hargs h n rfl
+    have := szCmdC_satisfies_spec l hl c args _ h n rfl
     simp only
     omega
 
